@@ -14,10 +14,10 @@ the two REAL runtimes returned):
   * `prop`   = the C26 predicate on the two REAL results (both fail, or same non-zero
                postings in order after merging adjacent equal pairs, same metadata);
   * `propModel` = the same predicate on the two MODEL results;
-  * tags     = generator, outcome, `F1` / `notF1:<first failing condition>`;
+  * tags     = generator, outcome, `F1` / `F2` (in F2 but not F1) / `notF2:<first failing condition>`;
   * `sig`    = `C26:<class>:<aspect>`; the class is the first reason the program is
                outside the proved fragment (so every divergence is named by a construct
-               the theorem excludes; a divergence inside F1 would be `C26:in-fragment:…`).
+               the theorem excludes; a divergence inside F2 would be `C26:in-fragment:…`).
 -/
 namespace Ledger.Driver.InterpH
 open Lean Ledger.Driver Ledger.Machine
@@ -159,7 +159,8 @@ mutual
   def dstReasons (env : Env) (asset : String) : Dest → List String
     | .account e => [acctReason env e false]
     | .inorder items rem => inOrderReasons env asset items ++ kdReasons env asset rem
-    | .allot items => "allotment" :: allotDstReasons env asset items
+    | .allot items =>
+      (if Interp.allotOK env items.portions then [] else ["allotment-shares"]) ++ allotDstReasons env asset items
   def kdReasons (env : Env) (asset : String) : KeptOrDest → List String
     | .kept => ["kept"]
     | .to d => dstReasons env asset d
@@ -189,7 +190,10 @@ def stmtReasons (env : Env) : Stmt → List String
     | .ok (a, some _) =>
       (match src with
        | .src s => srcReasons env a s
-       | .allot items => "allotment" :: allotSrcReasons env a items) ++ dstReasons env a dst
+       | .allot items =>
+         (if Interp.allotOK env items.portions then [] else ["allotment-shares"]) ++
+         (match evalMonetary env mon with | .ok (_, some v) => (if v < 0 then ["negative-amount"] else []) | _ => []) ++
+         allotSrcReasons env a items) ++ dstReasons env a dst
     | _ => ["ill-typed"]
   | .sendAll ae src dst =>
     match evalAssetE env ae with
@@ -202,7 +206,7 @@ def stmtReasons (env : Env) : Stmt → List String
 /-- Priority of the classes: the three listed by the `interp` workload first. -/
 def classPriority : List String :=
   ["kept", "save-expression", "save", "negative-cap", "world-variable", "asset-mismatch", "octal-portion",
-   "portion-variable", "allotment", "print", "fail", "ill-typed"]
+   "portion-variable", "negative-amount", "allotment-shares", "print", "fail", "ill-typed"]
 
 def hasBoundedOverdraft (s : Script) : Bool := (scriptTags s).contains "overdraft-upto"
 def hasSave (s : Script) : Bool := (scriptTags s).contains "save" || (scriptTags s).contains "save-all"
@@ -330,8 +334,9 @@ def handleInterp (checkProp : Bool) : Handler := fun inp out => do
   let prop := aspect = "" || !checkProp
   let propModel := aspectModel = ""
   -- fragment
-  let why := Interp.whyNotF1 script input
-  let inF1 := why = ""
+  let why := Interp.whyNotF2 script input
+  let inF2 := why = ""
+  let inF1 := Interp.InF1 script input
   let prep := prepare Cfg.fixed script input
   let reasons : List String :=
     match prep with
@@ -341,7 +346,7 @@ def handleInterp (checkProp : Bool) : Handler := fun inp out => do
   let cls : String :=
     if mreal.err = "exec:allot-exceeded" then "portions-over-100"
     else if hasSave script && hasBoundedOverdraft script then "save-overdraft"
-    else if inF1 then "in-fragment"
+    else if inF2 then "in-fragment"
     else if why = "front-ends-differ" then
       (if mreal.err = "vars:extraneous" then "extraneous-variable"
        else if mreal.err = "balances:world-source" then "world-variable"
@@ -352,13 +357,13 @@ def handleInterp (checkProp : Bool) : Handler := fun inp out => do
     if (rMR.static && !rIR.static) || (rIR.static && !rMR.static) then "out-of-subset"
     else if rMR.ok && rIR.ok then "both-ok" else if !rMR.ok && !rIR.ok then "both-fail" else "diverge"
   let nz := (Ledger.Api.Interp.norm (toP rMR.postings))
-  -- a divergence of the MODELS inside F1 would contradict `machine_interp_agree_F1`
-  let theoremOk := !(inF1 && !propModel)
+  -- a divergence of the MODELS inside F2 would contradict `machine_interp_agree_F2`
+  let theoremOk := !(inF2 && !propModel)
   let note :=
     if !textOk then "rendered text differs from the harness's text"
     else if !agreeI then s!"interpreter model differs from the real interpreter (model: {if rIM.ok then "ok" else iKind}, real: {if rIR.ok then "ok" else ireal.err})"
     else if !agreeM then s!"machine model differs from the real machine (model: {if rMM.ok then "ok" else mErr}, real: {mreal.compileErr}{mreal.err}{mreal.panic})"
-    else if !theoremOk then "models diverge inside F1"
+    else if !theoremOk then "models diverge inside F2"
     else if !prop then s!"runtimes diverge ({aspect}), class {cls}"
     else ""
   let model := Json.mkObj [
@@ -368,9 +373,10 @@ def handleInterp (checkProp : Bool) : Handler := fun inp out => do
       ("postings", Json.arr (rMM.postings.map jPosting).toArray), ("txMeta", rMM.txMeta), ("accMeta", rMM.accMeta)])]
   pure { model, agree := agree && theoremOk, prop, propModel,
          nontrivial := rMR.ok && rIR.ok && !nz.isEmpty,
-         tags := ["gen:" ++ genKind, outcome, (if inF1 then "F1" else "notF1:" ++ (if why = "statement-outside-F1" then cls else why))] ++
-                 (if inF1 && rMR.ok && !nz.isEmpty then ["F1-ok-nontrivial"] else []) ++
-                 (if inF1 && !rMR.ok && !rMR.static && mreal.err = "exec:insufficient" then ["F1-insufficient"] else []) ++
+         tags := ["gen:" ++ genKind, outcome,
+                  (if inF1 then "F1" else if inF2 then "F2" else "notF2:" ++ (if why = "statement-outside-F2" then cls else why))] ++
+                 (if inF2 && rMR.ok && !nz.isEmpty then ["F2-ok-nontrivial"] else []) ++
+                 (if inF2 && !rMR.ok && !rMR.static && mreal.err = "exec:insufficient" then ["F2-insufficient"] else []) ++
                  (if rIR.ok then [] else ["interp-err:" ++ ireal.err]),
          note, sig := if prop then "" else s!"C26:{cls}:{aspect}" }
 
